@@ -19,7 +19,7 @@ var gatedTTLs = []time.Duration{0, 0, 0, time.Hour, 2 * time.Hour, -time.Second}
 func runGatedRandom(c *Ctx) {
 	prop := c.Arg
 	c.R.Rule = "gated sequential episodes: random sequences of Set/SetWithTTL/Del/Get/GetTTL/IterValues/Wait/Clear/Close interleaved with 'apply n buffered items' steps (the applier is single-stepped through a hook), total cost within MaxCost; every result, callback, white-box snapshot and metric law is compared with a reference model (map + explicit FIFO of pending writes); distinct by (operation, outcome class, number of pending writes, ...); non-trivial when at least one write is pending or resident"
-	n := c.N(2000, 40000)
+	n := c.N(2000, 20000)
 	for i := 0; i < n; i++ {
 		if i%c.NParts != c.Part {
 			continue
